@@ -4,7 +4,7 @@
 //! "committed states overridden by pending states of the same epoch".
 #![cfg(kani)]
 use akd::storage::types::{ValueState, ValueStateRetrievalFlag as Flag};
-use akd::verif_hooks::{compare_db_and_transaction_records, find_appropriate_item};
+use akd::verif_hooks::{compare_db_and_transaction_records, compare_db_version_and_transaction_record, find_appropriate_item};
 use akd::{AkdLabel, AkdValue, NodeLabel};
 
 #[derive(Clone, Copy, PartialEq, Eq)]
@@ -172,6 +172,46 @@ fn c15_read_in_transaction_equals_read_after_commit() {
     assert!(got == want, "read inside the transaction differs from the read after commit");
     kani::cover!(tx.is_some() && db.is_some() && got == db);
     kani::cover!(tx.is_some() && db.is_some() && got == tx && tx != db);
+}
+
+/// The bulk query (`StorageManager::get_user_state_versions`) only knows the database pick's
+/// (version, value): the database entry, the pending pick and the version arbiter combined as that
+/// function combines them (C15.bulk_versions decides the wiring on the MIR) give the (version,
+/// pending?) of the read after commit.
+#[kani::proof]
+#[kani::unwind(6)]
+fn c15_bulk_read_in_transaction_equals_bulk_read_after_commit() {
+    let np: usize = kani::any();
+    kani::assume(np <= NP);
+    let (d, p) = any_states(np);
+    let flag = any_flag();
+    let mut merged: [Option<St>; ND + NP] = [None; ND + NP];
+    let mut i = 0;
+    while i < ND {
+        if let Some(c) = d[i] {
+            let overridden = (p[0].map_or(false, |s| s.epoch == c.epoch)) || (p[1].map_or(false, |s| s.epoch == c.epoch));
+            if !overridden {
+                merged[i] = Some(c);
+            }
+        }
+        i += 1;
+    }
+    merged[ND] = p[0];
+    merged[ND + 1] = p[1];
+    let want = spec_pick(&merged, flag).map(|s| (s.version, s.pending));
+    let db = spec_pick(&d, flag);
+    let tx = spec_pick(&p, flag);
+    let got = match (tx, db) {
+        (Some(t), Some(dbv)) => match compare_db_version_and_transaction_record(dbv.version, mk(t), flag) {
+            Some(r) => Some((r.version, r.value.0.len() == 1)),
+            None => Some((dbv.version, dbv.pending)),
+        },
+        (Some(t), None) => Some((t.version, t.pending)),
+        (None, dbv) => dbv.map(|s| (s.version, s.pending)),
+    };
+    assert!(got == want, "bulk read inside the transaction differs from the bulk read after commit");
+    kani::cover!(tx.is_some() && db.is_some() && got == db.map(|s| (s.version, s.pending)));
+    kani::cover!(tx.is_some() && db.is_some() && got == tx.map(|s| (s.version, s.pending)) && tx != db);
 }
 
 include!("playback_c15.rs");
